@@ -234,6 +234,7 @@ type St struct {
 	ip  int
 	env map[ssa.Value]Value
 	ver int // bumped whenever the state changes (executed or merged)
+	settled int // ver+1 at which the state was found unmergeable with every other state at its point
 	sp  []*T
 	spc *T
 }
@@ -645,35 +646,61 @@ func (e *Engine) runFrame(fn *ssa.Function, args []Value, s *State) []Out {
 				active = append(active, o)
 			}
 		}
-		// merge the states standing at this point, closest relatives (longest common path-condition prefix) first;
-		// a pair that failed to merge is not retried until one of the two has moved on
-		for len(group) > 1 {
-			bi, bj, best := -1, -1, -1
-			for i := 0; i < len(group); i++ {
-				si := group[i].spineOf()
-				for j := i + 1; j < len(group); j++ {
-					if failed[pairKey{group[i], group[j], group[i].ver, group[j].ver}] {
-						continue
-					}
-					sj := group[j].spineOf()
-					k := 0
-					for k < len(si) && k < len(sj) && si[k] == sj[k] {
-						k++
-					}
-					if k > best {
-						bi, bj, best = i, j, k
-					}
+		// merge the states standing at this point: sorted by path condition (conjunct by conjunct) close
+		// relatives are neighbours; each state is offered to its nearest predecessors. Passes repeat while
+		// something merged (a merged state has a shorter path condition and may now meet other relatives).
+		// States already found pairwise unmergeable ("settled" at their current version) are not re-examined.
+		for changed := true; changed && len(group) > 1; {
+			changed = false
+			allSettled := true
+			for _, g := range group {
+				if g.settled != g.ver+1 {
+					allSettled = false
+					break
 				}
 			}
-			if bi < 0 {
+			if allSettled {
 				break
 			}
-			if e.mergeSt(group[bi], group[bj]) {
-				group[bi].ver++
-				group = append(group[:bj], group[bj+1:]...)
-			} else {
-				failed[pairKey{group[bi], group[bj], group[bi].ver, group[bj].ver}] = true
+			sort.SliceStable(group, func(i, j int) bool {
+				a, b := group[i].spineOf(), group[j].spineOf()
+				for k := 0; k < len(a) && k < len(b); k++ {
+					if a[k] != b[k] {
+						return a[k].id < b[k].id
+					}
+				}
+				return len(a) < len(b)
+			})
+			out := group[:1:1]
+			for _, g := range group[1:] {
+				merged := false
+				for back := len(out) - 1; back >= 0 && back >= len(out)-6; back-- {
+					t := out[back]
+					if t.settled == t.ver+1 && g.settled == g.ver+1 {
+						continue
+					}
+					pk := pairKey{t, g, t.ver, g.ver}
+					if failed[pk] {
+						continue
+					}
+					if e.mergeSt(t, g) {
+						t.ver++
+						merged, changed = true, true
+						break
+					}
+					failed[pk] = true
+				}
+				if !merged {
+					out = append(out, g)
+				}
 			}
+			group = out
+		}
+		for _, g := range group {
+			g.settled = g.ver + 1
+		}
+		if progress && len(group) > 50 && e.stats.blocks%100 == 0 {
+			fmt.Fprintf(os.Stderr, "progress: %d unmergeable states at one point of %s (active %d)\n", len(group), fn.Name(), len(active))
 		}
 		cur := group[0]
 		cur.ver++
